@@ -429,6 +429,60 @@ pub fn dispatch(f: &[&str]) -> String {
                 Err(e) => format!("ERR {} | {}", loc(&e.0), e.1.replace(['\n', '\t'], " ")),
             }
         }
+        // ---- C12: debugger rows
+        "cldbrun" => {
+            // cldbrun <mode> <rich prog> <rich env> [flags]: step CldbRun to the end, rows as JSON
+            use chialisp::compiler::cldb::{CldbNoOverride, CldbRun, CldbRunEnv};
+            let _g = chialisp::compiler::clvm::NewStyleIntConversion::new(f[1] == "1");
+            let p = crate::rich::parse(f[2]).unwrap();
+            let e = crate::rich::parse(f[3]).unwrap();
+            let mut a = Allocator::new();
+            let env = CldbRunEnv::new(None, Rc::new(vec![]), Box::new(CldbNoOverride::new()));
+            let step = chialisp::compiler::clvm::start_step(p, e);
+            let mut run = CldbRun::new(rc_runner(), chialisp::compiler::prims::prim_map(), Box::new(env), step);
+            if f.len() > 4 {
+                run.set_flags(f[4].parse().unwrap());
+            }
+            let mut rows = Vec::new();
+            let mut n = 0;
+            while !run.is_ended() && n < 200000 {
+                n += 1;
+                if let Some(r) = run.step(&mut a) {
+                    rows.push(format!(
+                        "{{{}}}",
+                        r.iter().map(|(k, v)| format!("{}:{}", jstr(k), jstr(v))).collect::<Vec<_>>().join(",")
+                    ));
+                }
+            }
+            format!("{} [{}]", if run.is_ended() { "ENDED" } else { "LIMIT" }, rows.join(","))
+        }
+        "repl" => {
+            // repl <hex of lines separated by newline>: feed lines to a Repl, report each outcome briefly
+            use chialisp::compiler::compiler::DefaultCompilerOpts;
+            use chialisp::compiler::repl::Repl;
+            let text = String::from_utf8_lossy(&hex::decode(f[1]).unwrap()).to_string();
+            let opts = Rc::new(DefaultCompilerOpts::new("*repl*"));
+            let mut repl = Repl::new(opts, rc_runner());
+            let mut a = Allocator::new();
+            let mut outs = Vec::new();
+            for line in text.split('\n') {
+                match repl.process_line(&mut a, line.to_string()) {
+                    Ok(Some(b)) => outs.push(format!("V {}", b.to_sexp())),
+                    Ok(None) => outs.push("-".to_string()),
+                    Err(e) => outs.push(format!("E {} {}", e.0, e.1)),
+                }
+            }
+            format!("OK {}", outs.join(" || ").replace(['\n', '\t'], " "))
+        }
+        "unused" => {
+            use chialisp::compiler::compiler::DefaultCompilerOpts;
+            let text = String::from_utf8_lossy(&hex::decode(f[1]).unwrap()).to_string();
+            let opts = Rc::new(DefaultCompilerOpts::new("*verif*"));
+            match chialisp::classic::clvm_tools::debug::check_unused(opts, &text) {
+                Ok((ok, msg)) => format!("OK {} {}", ok, msg.replace(['\n', '\t'], " ")),
+                Err(e) => format!("ERR {} {}", e.0, e.1.replace(['\n', '\t'], " ")),
+            }
+        }
         other => format!("BADOP {}", other),
     }
 }
